@@ -152,6 +152,12 @@ def gen_errors():
         "ensures[C02,C07,C12] (len(data) == 5 && data[1] & 128 != 0) <==> err != nil",
         "ensures[C02,C07,C12] err != nil ==> dyntype(err) == *ErrorResponseRTU && err.(*ErrorResponseRTU) != nil && err.(*ErrorResponseRTU).UnitID == data[0] && err.(*ErrorResponseRTU).Function == data[1] - 128 && err.(*ErrorResponseRTU).Code == data[2]"])
 
+def gen_crc_recogniser():
+    block("AsRTUErrorPacketWithCRC(data []byte) (err error)", [
+        "safety[C10]", "noOverread[C10]", "modifies[C10] nothing",
+        "ensures[C12,C07] (len(data) == 5 && data[1] & 128 != 0 && crcTrailer(data, 5)) <==> err != nil",
+        "ensures[C12,C07] err != nil ==> dyntype(err) == *ErrorResponseRTU && err.(*ErrorResponseRTU) != nil && err.(*ErrorResponseRTU).UnitID == data[0] && err.(*ErrorResponseRTU).Function == data[1] - 128 && err.(*ErrorResponseRTU).Code == data[2]"])
+
 def gen_dispatchers():
     emit("// ---- response dispatchers ----", "")
     for disp, fr in (("ParseTCPResponse", "TCP"), ("ParseRTUResponse", "RTU"), ("ParseRTUResponseWithCRC", "RTU")):
@@ -220,6 +226,7 @@ fun pduFC17Resp(d []byte, o int, uid uint8, sid []byte, status uint8, add []byte
 def generate():
     gen_resp_types()
     gen_errors()
+    gen_crc_recogniser()
     gen_dispatchers()
     gen_misc()
     return "\n// ===== generated: responses =====\n\n" + "\n".join(OUT) + "\n"
